@@ -109,6 +109,7 @@ func guardOK(tbl []Proto) bool {
 func randTable(r *vf.Rng) []Proto {
 	k := 1 + r.Intn(4)
 	bad := r.Chance(10)
+	young := !bad && r.Chance(20)
 	var tbl []Proto
 	for v := 1; v <= k; v++ {
 		p := Proto{V: uint64(v)}
@@ -116,6 +117,11 @@ func randTable(r *vf.Rng) []Proto {
 		p.Threshold = uint64(r.Intn(int(p.VoteRounds) + 2))
 		p.MinWait = uint64(1 + r.Intn(4))
 		p.MaxWait = p.MinWait + uint64(r.Intn(5))
+		if young {
+			// waits far above the heights of a young chain (the real tables: 100 to 10000)
+			p.MinWait = uint64(40 + r.Intn(260))
+			p.MaxWait = p.MinWait + uint64(r.Intn(100))
+		}
 		p.WaitRounds = uint64(r.Intn(9))
 		switch r.Intn(4) {
 		case 0:
@@ -355,6 +361,10 @@ func gen(seed uint64, n int, outDir, corpusDir string) {
 			res.Count("table_guard_violated")
 		}
 		prev := Hdr{Num: uint64(r.Intn(40)), Cur: 1}
+		if tbl[0].MinWait >= 40 {
+			prev.Num = uint64(r.Intn(4)) // a young chain: every round is below the minimum wait
+			res.Count("young_chain_large_waits")
+		}
 		if r.Chance(8) { // junk start: correspondence only, no oracle
 			prev.Nv, prev.Nvb, prev.Nso, prev.Na = uint64(r.Intn(4)), uint64(r.Intn(60)), uint64(r.Intn(60)), uint64(r.Intn(8))
 			guard = false
@@ -385,7 +395,15 @@ func gen(seed uint64, n int, outDir, corpusDir string) {
 					steps++
 				}
 			}
-			if adversarial {
+			if adversarial && prev.Nv == 0 && honest.Nv != 0 && r.Chance(35) {
+				// a new proposal whose only wrong field is the announced switch round
+				pp, _ := inTable(tbl, prev.Cur)
+				round := prev.Num + 1
+				c.Curr = honest
+				c.Curr.Nso = r.Pick([]uint64{round + 1, round + 2, round, 0, 1, pp.MinWait - 1, honest.Nvb, honest.Nvb + 1,
+					honest.Nvb + pp.MinWait - 1, honest.Nvb + pp.MaxWait + 1, uint64(r.Intn(8))})
+				res.Count("new_proposal_switch_round_mutated")
+			} else if adversarial {
 				c.Curr = mutate(r, tbl, prev, honest)
 			} else {
 				c.Curr = honest
